@@ -7,6 +7,7 @@ mod text;
 mod codec;
 mod hc;
 mod ep;
+mod rate;
 mod heap;
 
 #[global_allocator]
@@ -33,6 +34,7 @@ fn main() {
             "codec" => Box::new(codec::CodecMachine::new()),
             "hc" => Box::new(hc::HcMachine::new()),
             "ep" => Box::new(ep::EpMachine::new()),
+            "rate" => Box::new(rate::RateMachine::new()),
             _ => {
                 eprintln!("unknown mode {}", mode);
                 std::process::exit(2);
